@@ -68,6 +68,17 @@ func entGov(name string, signers string, min, limit uint64, counter string, max 
 		Enabled: func(_ *model.State, aux map[string]int) bool { return aux[counter] < max }}
 }
 
+// decideAndGov: a decision delivered in the first block of a governance macro-step, so that the tally
+// of the next block begin and the parameter change of the same block's end fall around the order's
+// acceptance (threshold / signer-set change between acceptance and minting).
+func decideAndGov(signer string, id uint64, dec int, gname, signers string, min, limit uint64) Action {
+	d := decide(signer, id, dec)
+	a := entGov(d.Name+"&"+gname, signers, min, limit, "gov", 1)
+	a.Gov.Txs = d.Txs
+	a.Enabled = func(m *model.State, aux map[string]int) bool { _, ok := m.Ent.Orders[id]; return ok && aux["gov"] < 1 }
+	return a
+}
+
 func c03Scenario(name string, signers []string, min uint64, fullGov bool) *Scenario {
 	g := BaseGenesis(
 		mc.AcctSpec{Name: "S1", Coins: Coins(1000, 0)}, mc.AcctSpec{Name: "S2", Coins: Coins(1000, 0)}, mc.AcctSpec{Name: "S3", Coins: Coins(1000, 0)},
@@ -98,6 +109,9 @@ func c03Scenario(name string, signers []string, min uint64, fullGov bool) *Scena
 			entGov("gov(signers=S1,S2,S3;min=3)", "S1,S2,S3", 3, 100, "gov", 1),
 			entGov("gov(signers=S1,S2,S3;min=1)", "S1,S2,S3", 1, 100, "gov", 1),
 			entGov("gov(limit=10)", "S1,S2,S3", 2, 10, "gov", 1),
+			decideAndGov("S2", 1, 2, "gov(signers=S1,S2,S3;min=3)", "S1,S2,S3", 3, 100),
+			decideAndGov("S2", 1, 2, "gov(signers=S1;min=1)", "S1", 1, 100),
+			decideAndGov("S2", 1, 3, "gov(signers=S1,S2,S3;min=1)", "S1,S2,S3", 1, 100),
 		)
 	}
 	return s
